@@ -275,11 +275,60 @@ def inspect_decorator(
             ).format(lineno, 0, len(lines), filename, "\n".join(lines))
         )
 
-    # Go up till a line starts with a decorator
+    # Go up till a line starts with a decorator.
+    #
+    # A line within the decorator may look like the start of a decorator as well (*e.g.*, a continuation line of
+    # an argument which starts with the matrix multiplication operator, or a line of a multi-line string). The text
+    # from such a line on can not be parsed, so we move on to the next candidate line further up.
     decorator_lineno = None  # type: Optional[int]
-    for i in range(lineno, -1, -1):
-        if _DECORATOR_RE.match(lines[i]):
-            decorator_lineno = i
+    decorator_end_lineno = None  # type: Optional[int]
+    atok = None  # type: Optional[asttokens.asttokens.ASTTokens]
+    syntax_error = None  # type: Optional[SyntaxError]
+
+    for candidate_lineno in range(lineno, -1, -1):
+        if not _DECORATOR_RE.match(lines[candidate_lineno]):
+            if candidate_lineno != lineno and _DEF_CLASS_RE.match(
+                lines[candidate_lineno]
+            ):
+                # The previous definition: the decorator can not start before it.
+                break
+
+            continue
+
+        if decorator_lineno is None:
+            decorator_lineno = candidate_lineno
+
+        # Find the decorator end -- it's either a function definition, a class definition or another decorator.
+        #
+        # A line within the decorator may look like the next statement as well (*e.g.*, a continuation line of
+        # the condition which starts with the matrix multiplication operator, ``@other``). The decorator text up to
+        # such a line can not be parsed, so we move on to the next candidate line.
+        for i in range(lineno + 1, len(lines)):
+            line = lines[i]
+
+            if _DECORATOR_RE.match(line) or _DEF_CLASS_RE.match(line):
+                decorator_end_lineno = i
+                decorator_lines = lines[candidate_lineno:decorator_end_lineno]
+
+                # We need to dedent the decorator and add a dummy decorate so that we can parse its text as valid
+                # source code.
+                decorator_text = textwrap.dedent("".join(decorator_lines))
+                if decorator_text[:1] in (" ", "\t"):
+                    # A continuation line inside the parentheses is indented less than the decorator itself,
+                    # so the text could not be dedented as a block.
+                    decorator_text = decorator_text.lstrip()
+
+                decorator_text += "def dummy_{}(): pass".format(uuid.uuid4().hex)
+
+                try:
+                    atok = asttokens.asttokens.ASTTokens(decorator_text, parse=True)
+                    break
+                except SyntaxError as err:
+                    if syntax_error is None:
+                        syntax_error = err
+
+        if atok is not None:
+            decorator_lineno = candidate_lineno
             break
 
     if decorator_lineno is None:
@@ -288,38 +337,6 @@ def inspect_decorator(
                 lineno + 1, filename, lines[lineno]
             )
         )
-
-    # Find the decorator end -- it's either a function definition, a class definition or another decorator.
-    #
-    # A line within the decorator may look like the next statement as well (*e.g.*, a continuation line of
-    # the condition which starts with the matrix multiplication operator, ``@other``). The decorator text up to such
-    # a line can not be parsed, so we move on to the next candidate line.
-    decorator_end_lineno = None  # type: Optional[int]
-    atok = None  # type: Optional[asttokens.asttokens.ASTTokens]
-    syntax_error = None  # type: Optional[SyntaxError]
-    for i in range(lineno + 1, len(lines)):
-        line = lines[i]
-
-        if _DECORATOR_RE.match(line) or _DEF_CLASS_RE.match(line):
-            decorator_end_lineno = i
-            decorator_lines = lines[decorator_lineno:decorator_end_lineno]
-
-            # We need to dedent the decorator and add a dummy decorate so that we can parse its text as valid
-            # source code.
-            decorator_text = textwrap.dedent("".join(decorator_lines))
-            if decorator_text[:1] in (" ", "\t"):
-                # A continuation line inside the parentheses is indented less than the decorator itself,
-                # so the text could not be dedented as a block.
-                decorator_text = decorator_text.lstrip()
-
-            decorator_text += "def dummy_{}(): pass".format(uuid.uuid4().hex)
-
-            try:
-                atok = asttokens.asttokens.ASTTokens(decorator_text, parse=True)
-                break
-            except SyntaxError as err:
-                if syntax_error is None:
-                    syntax_error = err
 
     if decorator_end_lineno is None:
         raise SyntaxError(
